@@ -131,7 +131,8 @@ class V:
         elif k == "dict":
             self.check_dict_keys(v, path)
             if isinstance(v, dict):
-                self.no_null_or_empty(v, path)
+                for dk, dv in v.items():
+                    self.no_null_or_empty(dv, path + (str(dk),), ":in-dictionary-value")
         elif k == "list":
             if not isinstance(v, list):
                 return self.add("wrong-json-kind", path, "list expected, got %s" % type(v).__name__)
@@ -179,22 +180,20 @@ class V:
                 self.add("dictionary-key-length", path + (key,), "key length %d" % len(key))
             elif self.version == "2.1" and len(key) > 250:
                 self.add("dictionary-key-length", path + (key,), "key length %d" % len(key))
-            if v[key] is None:
-                self.add("null-value", path + (key,), "null")
 
-    def no_null_or_empty(self, v, path):
+    def no_null_or_empty(self, v, path, tag=""):
         if v is None:
-            self.add("null-value", path, "null")
+            self.add("null-value" + tag, path, "null")
         elif isinstance(v, dict):
             if not v:
-                self.add("empty-dictionary", path, "empty dictionary")
+                self.add("empty-dictionary" + tag, path, "empty dictionary")
             for k, x in v.items():
-                self.no_null_or_empty(x, path + (str(k),))
+                self.no_null_or_empty(x, path + (str(k),), tag)
         elif isinstance(v, list):
             if not v:
-                self.add("empty-list", path, "empty list")
+                self.add("empty-list" + tag, path, "empty list")
             for i, x in enumerate(v):
-                self.no_null_or_empty(x, path + ("[%d]" % i,))
+                self.no_null_or_empty(x, path + ("[%d]" % i,), tag)
 
     def check_extensions(self, v, path, container):
         if not isinstance(v, dict):
@@ -409,9 +408,9 @@ def validate(o, version=None):
     # generic rule: no null / empty list / empty dict anywhere
     g = V(version)
     g.no_null_or_empty(o, ())
-    seen = {(k, p) for k, p, _ in v.issues}
+    seen = {p for k, p, _ in v.issues if k.split(":")[0] in ("null-value", "empty-dictionary", "empty-list", "co-constraint")}
     for k, p, msg in g.issues:
-        if (k, p) not in seen:
+        if p not in seen:
             v.issues.append((k, p, msg))
     return v.issues
 
